@@ -146,6 +146,7 @@ func c03Tag(tag string) string {
 }
 
 func runC03(c *ev.Ctx) {
+	defer sizeSweep(c, "C03")
 	treeN, wsN, tokLen := 5, 4, 3
 	pairStep := 16 // quick: 64x64 grid of surrogate halves
 	if c.Thorough() {
